@@ -1,7 +1,13 @@
 #!/bin/bash
-# re-run every stored seeded change against the current checks (quick tier); one line each
+# re-run every stored seeded change against the current checks (quick tier): the property it was written for plus any other
+# property recorded in its meta.json as catching it; one line each
 cd /verif
 for d in seeded/*/; do
   n=$(basename $d); pid=${n%%-*}
-  tools/seeded.py $d $pid --name $n --no-store 2>&1 | tail -1
+  also=$(/venv/bin/python -c "
+import json,sys
+m=json.load(open('$d/meta.json'))
+print(','.join(k for k in m.get('checks',{}) if k!='$pid'))" 2>/dev/null)
+  if [ -n "$also" ]; then tools/seeded.py $d $pid --also $also --name $n --no-store 2>&1 | tail -1
+  else tools/seeded.py $d $pid --name $n --no-store 2>&1 | tail -1; fi
 done
